@@ -307,6 +307,8 @@ Definition table_relative (p : string) : Prop := startswith "data/" p = true \/ 
 
 (* a stored reference as the writers produce it: "data/x", "/data/x", "metadata/manifests/y", ... *)
 Definition wf_ref (r : string) : Prop := table_relative (resolve r).
+Definition wf_data_ref (r : string) : Prop := startswith "data/" (resolve r) = true.      (* data files live under data/ *)
+Definition wf_meta_ref (r : string) : Prop := startswith "metadata/" (resolve r) = true.  (* lists, manifests under metadata/ *)
 
 Definition list_at (st : store) (k : key) (ms : list string) : Prop :=
   exists o f, lookup k st = Some o /\ body o = CList f ms.
@@ -344,11 +346,29 @@ Definition live_target (now timeout : Z) (st : store) (k : key) : Prop :=
 (* writer-side path forms (an invariant of the sequential machine, Model/GCHist.v) *)
 Record wf_store (snaps : list string) (st : store) : Prop := {
   wf_nodup : NoDup (map fst st);
-  wf_snaps : forall l, In l snaps -> nonempty l = true -> wf_ref l;
-  wf_lists : forall k o f ms m, lookup k st = Some o -> body o = CList f ms -> In m ms -> nonempty m = true -> wf_ref m;
-  wf_manifests : forall k o f es e, lookup k st = Some o -> body o = CManifest f es -> In e es -> wf_ref e;
+  wf_snaps : forall l, In l snaps -> nonempty l = true -> wf_meta_ref l;
+  wf_lists : forall k o f ms m, lookup k st = Some o -> body o = CList f ms -> In m ms -> nonempty m = true -> wf_meta_ref m;
+  wf_manifests : forall k o f es e, lookup k st = Some o -> body o = CManifest f es -> In e es -> wf_data_ref e;
   (* _register_inflight: marker "<basename>.inflight", payload = the table-relative path of a file under
      data/ or metadata/manifests/ *)
   wf_markers : forall mk o t, lookup mk st = Some o -> is_marker_key mk -> body o = CMarker (Some t) -> nonempty t = true ->
                In (resolve t) (name_candidates mk)
 }.
+
+(* decidable version of wf_store (sound: Proofs/GCProofs.v wf_storeb_sound); used for the non-vacuity
+   examples and by the harness to confirm that the stores it builds from real tables are well-formed *)
+Fixpoint nodupb (l : list string) : bool :=
+  match l with [] => true | x :: r => negb (str_mem x r) && nodupb r end.
+Definition is_marker_keyb (mk : key) : bool :=
+  startswith (INFLIGHT_PATH ++ "/") mk && endswith INFLIGHT_SUFFIX (basename mk).
+Definition wf_objb (k : key) (o : obj) : bool :=
+  match body o with
+  | CList _ ms => forallb (fun m => negb (nonempty m) || startswith "metadata/" (resolve m)) ms
+  | CManifest _ es => forallb (fun e => startswith "data/" (resolve e)) es
+  | CMarker (Some t) => negb (is_marker_keyb k && nonempty t) || str_mem (resolve t) (name_candidates k)
+  | _ => true
+  end.
+Definition wf_storeb (snaps : list string) (st : store) : bool :=
+  nodupb (map fst st)
+  && forallb (fun l => negb (nonempty l) || startswith "metadata/" (resolve l)) snaps
+  && forallb (fun p => wf_objb (fst p) (snd p)) st.
